@@ -1,20 +1,56 @@
-(* C09_Corr.v — correspondence vocabulary for C09.  A case is the config version, the
-   list of binding contexts handed to ConvertBindingContextList and what
-   ConvertBindingContextList(version, contexts).Json() produced, parsed (None = panic).
+(* C09_Corr.v — correspondence vocabulary for C09.  Two kinds of cases:
+
+     CList  the config version, a list of binding contexts handed to
+            ConvertBindingContextList and what ConvertBindingContextList(version,
+            contexts).Json() produced, parsed (None = panic);
+     CFlow  a hook with one kubernetes binding on a cluster: the binding's options, the
+            objects that exist when the monitor is created, the watch events afterwards,
+            and the files the real KubeEventsManager + HookController + rendering produced
+            (None = crash), each with the step after which it appeared and the ResourceIds
+            behind its `objects` and `snapshots` elements.
+
    Evaluated by vm_compute in the generated cases files. *)
 From Verif Require Import Common Json C09_Model C09_Spec.
 
-Definition case := (version * list ctx * option json)%type.
+Inductive case :=
+| CList (v : version) (cs : list ctx) (out : option json)
+| CFlow (f : flow) (obs : option (list fobs)).
 
-Definition c_version (c : case) : version := fst (fst c).
-Definition c_ctxs (c : case) : list ctx := snd (fst c).
-Definition c_out (c : case) : option json := snd c.
+Inductive mobs := MList (out : option json) | MFlow (files : list fobs).
 
-Definition model_obs (c : case) : option json := render_list (c_version c) (c_ctxs c).
-Definition agrees (c : case) : bool := option_eqb json_eqb (model_obs c) (c_out c).
+Definition model_obs (c : case) : mobs :=
+  match c with
+  | CList v cs _ => MList (render_list v cs)
+  | CFlow f _ => MFlow (run_flow f)
+  end.
+
+Definition ids_eqb : list bytes -> list bytes -> bool := list_eqb bytes_eqb.
+
+Definition fobs_eqb (a b : fobs) : bool :=
+  N.eqb (fo_step a) (fo_step b)
+  && ids_eqb (fo_ids a) (fo_ids b)
+  && list_eqb (pair_eqb bytes_eqb ids_eqb) (fo_snaps a) (fo_snaps b)
+  && option_eqb json_eqb (fo_out a) (fo_out b).
+
+Definition agrees (c : case) : bool :=
+  match c with
+  | CList v cs out => option_eqb json_eqb (render_list v cs) out
+  | CFlow f (Some files) => list_eqb fobs_eqb (run_flow f) files
+  | CFlow f None => false
+  end.
+
+Definition holds (c : case) : bool :=
+  match c with
+  | CList v cs out => P v cs out
+  | CFlow f obs => P_flow f obs
+  end.
+
+Definition triggered (c : case) : bool :=
+  match c with
+  | CList v cs _ => T v cs
+  | CFlow f _ => T_flow f
+  end.
 
 Definition mismatches (cs : list case) : list N := indices_where (fun c => negb (agrees c)) cs.
-Definition spec_violations (cs : list case) : list N :=
-  indices_where (fun c => negb (P (c_version c) (c_ctxs c) (c_out c))) cs.
-Definition trigger_F8 (cs : list case) : list N :=
-  indices_where (fun c => T (c_version c) (c_ctxs c)) cs.
+Definition spec_violations (cs : list case) : list N := indices_where (fun c => negb (holds c)) cs.
+Definition trigger_F8 (cs : list case) : list N := indices_where triggered cs.
